@@ -1,10 +1,10 @@
 package nc
 
 import (
-	"go/token"
-	"go/types"
 	"fmt"
 	"go/constant"
+	"go/token"
+	"go/types"
 	"strings"
 
 	"golang.org/x/tools/go/ssa"
@@ -14,9 +14,9 @@ func init() { register("C19", C19) }
 
 type floatsSpec struct {
 	method string
-	callee string   // external function rendered by calleeName
-	level  string   // quantile level, "" otherwise
-	guard  bool     // must return NaN on the empty series
+	callee string // external function rendered by calleeName
+	level  string // quantile level, "" otherwise
+	guard  bool   // must return NaN on the empty series
 }
 
 var floatsTable = []floatsSpec{
